@@ -9,12 +9,12 @@ import vlib
 LEVEL = "proof"
 PROPS = "Symlink/Props_C17.v"
 COQ_FILES = ["Symlink/PathSeg.v", "Symlink/PathSegProofs.v", "Symlink/Model.v", "Symlink/Proofs.v",
-             "Symlink/LoadProofs.v", "Symlink/Props_C17.v"]
+             "Symlink/LoadProofs.v", "Symlink/OracleProofs.v", "Symlink/Props_C17.v"]
 THEOREMS = ["resolve_sound", "resolve_target", "resolve_target_distinct", "resolve_missing", "resolve_otherwise",
             "resolve_notexist_sound", "resolve_cycle_sound", "resolve_depth_sound", "resolve_strict_on_D",
-            "resolve_strict_refuted", "resolve_agrees_with_walk", "stat_sound", "stat_deleted", "open_sound", "target_outside_root_sound",
+            "resolve_strict_refuted", "resolve_agrees_with_walk", "resolve_fuel_exact", "s_expect_means", "oracle_accepts_resolver", "s_table_wf", "stat_sound", "stat_deleted", "open_sound", "target_outside_root_sound",
             "inside_clean", "loaded_links_inside", "outside_link_absent", "view_get_consistent",
-            "abs_target_not_cleaned_refuted", "canonical_abs_targets_agree_on_D"]
+            "stored_target_is_lexical_target"]
 CORR = "image layer FS Stat/Open/ReadDir (Go, FromV1Image) vs Symlink.Model m_stat/m_open/m_readdir (Coq, vm_compute)"
 TOTAL_GRAPHS = 14 ** 5
 
@@ -55,13 +55,18 @@ def _run_part(ctx, binp, tag, args, tmpdir):
             summ = json.loads(l[len("summary: "):])
     if summ is None:
         raise RuntimeError("harness part %s: no summary: %s" % (tag, out[-500:]))
-    res = {"tag": tag, "summary": summ, "side": side, "corr": [], "spec": [], "boundary": 0, "noncanon": 0}
+    res = {"tag": tag, "summary": summ, "side": side, "corr": [], "spec": [], "boundary": 0, "noncanon": 0,
+           "in_D": 0, "order_sensitive": 0}
     per = summ["per_file"]
     for k, f in enumerate(summ["files"]):
         rc, cout = vlib.sh(["coqc", "-Q", os.path.join(vlib.COQ, "theories"), "Scalibr", f], cwd=d, timeout=3000)
         cb = vlib.parse_printed_list(cout, "corr_bad")
         sb = vlib.parse_printed_list(cout, "spec_bad")
         bc = vlib.parse_printed_list(cout, "boundary_count")
+        if summ.get("stream") == "general":
+            bc = [0]
+            res["in_D"] += (vlib.parse_printed_list(cout, "in_D") or [0])[0]
+            res["order_sensitive"] += (vlib.parse_printed_list(cout, "order_sensitive") or [0])[0]
         if rc != 0 or cb is None or sb is None or bc is None:
             raise RuntimeError("cases file %s failed: %s" % (f, cout[-1500:]))
         res["corr"] += [k * per + i for i in cb]
@@ -105,6 +110,20 @@ def _replay_eval(ctx, binp, case_obj, name):
     if rc != 0:
         raise RuntimeError("replay failed: " + out[-1500:])
     impls = [json.loads(l[len("implementation: "):]) for l in out.splitlines() if l.startswith("implementation: ")]
+    gdefs = [l[len("coq-general-defs: "):] for l in out.splitlines() if l.startswith("coq-general-defs: ")]
+    gterm = [l[len("coq-general-case: "):] for l in out.splitlines() if l.startswith("coq-general-case: ")]
+    if gterm:
+        v = ("From Coq Require Import List NArith ZArith Bool.\nFrom Scalibr Require Import Image.PathTree Image.Fill "
+             "Image.Overlay Symlink.General.\nImport ListNotations.\n" + gdefs[0] + "\nDefinition c0 : gcase := " + gterm[0] + ".\n"
+             "Definition r0 := Eval vm_compute in [gcase_model_ok c0; gcase_spec_ok c0; gcase_spec_ok c0; gcase_in_D c0; gcase_order_sensitive c0].\nPrint r0.\n"
+             "Definition m0 := Eval vm_compute in match load (gcfg (g_depth c0)) (g_img c0) with Some st => "
+             "map (fun q => (g_view q, g_name q, g_stat (nth (g_view q) (st_chains st) empty_trie) (g_name q) (g_depth c0), "
+             "SM.s_expect (spec_stable (view_spec (gcfg (g_depth c0)) (g_img c0) (g_view q))) (qsegs (g_name q)) (g_depth c0))) (g_obs c0) "
+             "| None => [] end.\nPrint m0.\n")
+        rc, cout = ctx.run_cases(name, v)
+        t = vlib.parse_printed_term(cout, "r0")
+        flags = [x.strip() == "true" for x in (t or "").strip("[]").split(";")] if t else None
+        return [{"impl": impls[0] if impls else None, "flags": flags}], cout, rc
     # the harness prints the case term on two lines
     lines = out.splitlines()
     terms = []
@@ -136,9 +155,17 @@ def run(ctx):
     pa = ctx.prove(PROPS, clean=(COQ_FILES if ctx.tier == "thorough" else False))
     ctx.log("proof ok=%s obligations=%d closed=%d" % (pa["ok"], pa["obligations"], pa["print_assumptions_closed"]))
     vlib.proof_coverage(ctx, pa)
+    # the general-image stream evaluates Symlink/General.v (built on C04's Image/Fill.v and Image/Overlay.v)
+    gbad = ctx.gate(["Symlink/General.v"])
+    if gbad:
+        ctx.violation({"kind": "gate", "hits": gbad}, nofail=True)
+    rcg, outg = ctx.coq_make(["theories/Symlink/General.vo"])
+    general_ok = (rcg == 0)
+    if not general_ok:
+        ctx.notes.append("Symlink/General.v (or Image/Fill.v, Image/Overlay.v it imports) does not compile: " + outg[-600:])
     if ctx.tier == "thorough":
         chk = ctx.coqchk(["Scalibr.Symlink.PathSeg", "Scalibr.Symlink.PathSegProofs", "Scalibr.Symlink.Model",
-                          "Scalibr.Symlink.Proofs", "Scalibr.Symlink.LoadProofs", "Scalibr.Symlink.Props_C17"])
+                          "Scalibr.Symlink.Proofs", "Scalibr.Symlink.LoadProofs", "Scalibr.Symlink.OracleProofs", "Scalibr.Symlink.Props_C17"])
         ctx.coverage["coqchk"] = chk
         if chk["rc"] != 0:
             ctx.proof_ok = False
@@ -176,6 +203,7 @@ def run(ctx):
         # be started within the budget, what has run is still spread evenly over the whole space
         nparts = 42
         parts.append(("e", ["-stream", "explicit", "-seed", str(ctx.seed), "-rand", "3000", "-paths", "3000", "-per", "150"]))
+        parts.append(("g", ["-stream", "general", "-seed", str(ctx.seed), "-general", "6000", "-per", "150"]))
         for k in range(nparts):
             parts.append(("x%02d" % k, ["-stream", "exh", "-lo", "0", "-hi", str(TOTAL_GRAPHS), "-parts", str(nparts),
                                         "-part", str(k), "-per", "3300", "-compact"]))
@@ -186,14 +214,21 @@ def run(ctx):
             parts.append(("x%02d" % k, ["-stream", "exh", "-sample", "1400", "-seed", str(ctx.seed), "-parts", str(nparts),
                                         "-part", str(k), "-per", "200"]))
         parts.append(("e", ["-stream", "explicit", "-seed", str(ctx.seed), "-rand", "250", "-paths", "250", "-per", "140"]))
+        parts.append(("g", ["-stream", "general", "-seed", str(ctx.seed), "-general", "400", "-per", "60"]))
         exhaustive = False
+    if not general_ok:
+        parts = [pt for pt in parts if pt[0] != "g"]
+        ctx.violation({"kind": "proof-broken", "props_file": "Symlink/General.v", "log_tail": outg[-2500:],
+                       "correspondence": "general-image stream (Symlink/General.v over Image/Fill.v + Image/Overlay.v)",
+                       "explanation": "the model of the general-image stream does not compile, so that stream was not run"},
+                      nofail=True)
     results = []
     import time
     start_budget = float(os.environ.get("VERIF_C17_START_BUDGET_S", "600"))
     t_start = time.time()
 
     def guarded(tag, args):
-        if tag != "e" and time.time() - t_start > start_budget:
+        if tag not in ("e", "g") and time.time() - t_start > start_budget:
             return None     # not started: the 20-minute budget of the tier would be exceeded
         return _run_part(ctx, binp, tag, args, os.path.join(tmpbase, tag))
 
@@ -210,9 +245,13 @@ def run(ctx):
     if skipped:
         exhaustive = False
         ctx.notes.append("%d of %d exhaustive-stream parts were not started within %ds (machine load); the parts that ran "
-                         "are residue classes of the graph index, i.e. spread evenly over the space" % (skipped, len(parts) - 1, start_budget))
+                         "are residue classes of the graph index, i.e. spread evenly over the space" % (skipped, len(parts) - 2, start_budget))
     graphs = sum(r["summary"].get("graphs", 0) for r in results)
     explicit = sum(r["summary"].get("cases", 0) for r in results)
+    general = sum(r["summary"].get("cases", 0) for r in results if r["summary"].get("stream") == "general")
+    general_in_D = sum(r["in_D"] for r in results)
+    general_order_sensitive = sum(r["order_sensitive"] for r in results)
+    unstable = sum(r["summary"].get("unstable_answers", 0) for r in results)
     evals = sum(r["summary"]["evaluations"] for r in results)
     distinct = sum(r["summary"]["distinct_nontrivial"] for r in results)
     boundary = sum(r["boundary"] for r in results)
@@ -251,6 +290,26 @@ def run(ctx):
                            "explanation": "witness satisfies the strict property although the model agrees with the code: "
                                           "the finding entry is wrong"}, nofail=True)
 
+    # fixed findings suppress nothing: their witnesses are regression cases (model, spec on D and spec as written must hold)
+    import glob
+    fixed = []
+    for fpath in sorted(glob.glob(os.path.join(vlib.VERIF, "KNOWN_FINDINGS.d", "*.json"))):
+        k = json.load(open(fpath))
+        fixed += [e for e in (k if isinstance(k, list) else k.get("findings", []))
+                  if e.get("property") == "C17" and e.get("status") == "fixed" and e.get("witness")]
+    for kf in fixed:
+        res, cout, rc = _replay_eval(ctx, binp, kf["witness"], "C17_fixed_" + "".join(ch if ch.isalnum() else "_" for ch in kf["id"]))
+        if rc != 0 or not res or any(x["flags"] is None for x in res):
+            raise RuntimeError("fixed finding replay failed: " + cout[-1500:])
+        if not all(x["flags"][1] and x["flags"][2] for x in res):
+            ctx.violation({"kind": "spec-failure", "regression_of": kf["id"], "fix_commit": kf.get("fix_commit"),
+                           "case": kf["witness"], "implementation": [x["impl"] for x in res],
+                           "explanation": "the witness of a fixed finding violates the property again"})
+        elif not all(x["flags"][0] for x in res):
+            ctx.violation({"kind": "correspondence-broken", "regression_of": kf["id"], "first_mismatch": kf["witness"],
+                           "correspondence": CORR, "theorems_no_longer_tied_to_code": THEOREMS}, nofail=True)
+    ctx.coverage["fixed_findings_regression_replayed"] = [e["id"] for e in fixed]
+
     hist = {}
     for r in results:
         for i, v in enumerate(r["summary"].get("kind_histogram", [])):
@@ -285,9 +344,16 @@ def run(ctx):
             "exhaustive_stream_graphs": graphs, "exhaustive_stream_total": TOTAL_GRAPHS, "depths_per_graph": 7,
             "entry_kind_histogram": {kinds[i]: v for i, v in sorted(hist.items())},
             "observations_on_boundary_excluded_from_oracle": boundary,
-            "explicit_cases_outside_D_noncanonical_abs_target": noncanon,
+            "explicit_cases_with_noncanonical_abs_target": noncanon,
+            "general_images": general, "general_images_in_oracle_domain_D17": general_in_D,
+            "general_images_with_map_order_dependent_final_view": general_order_sensitive,
+            "general_answers_differing_between_query_orders": unstable,
         },
         "vm_compute_cases": graphs * 7 + explicit,
+        "query_orders": "general stream: every chain layer of one loaded image is asked in three orders (views ascending with "
+                        "one FS object per view; views descending and names reversed on the same FS objects; name-major on "
+                        "fresh FS objects); an answer that differs from the first pass is kept as an extra observation and "
+                        "therefore fails the correspondence",
         "explanation": ("every one of the 14^5 = 537824 graphs x depths 0..6 was run" if exhaustive else
                         "%d of the 537824 graphs x depths 0..6 were run (quick: seeded sample; thorough runs all unless "
                         "the machine is overloaded)" % graphs)
